@@ -336,9 +336,28 @@ F8(u_) == { CaseOf(<<Module("a", <<>>, <<Grouping("g", SetAsSeq(gx) \o <<Leaf("x
                          <<List("li", "k", <<Uses("", "g", <<>>)>>)>>, <<Uses("", "g", <<>>)>>,
                          <<Cont("top", <<Choice("ch", <<Case("ca", <<Uses("", "g", <<>>)>>)>>)>>)>> } }
 
+\* H3: every node kind whose own config differs from its parent's, written directly, arriving through refine,
+\* or through deviate add - under every filter.  Whatever the unfiltered compile accepts must prune exactly.
+H3Kids == << Cont("c", <<Leaf("cl", <<>>)>>), Cont("p", <<P("presence", "here"), Leaf("pl", <<>>)>>),
+             List("l", "k", <<Leaf("v", <<>>)>>), LeafList("ll", <<>>),
+             Choice("ch", <<Case("ca", <<Leaf("q", <<>>)>>), Leaf("sh", <<>>)>>), Leaf("lf", <<>>) >>
+\* <<path in the source as written, schema node path (through the implicit case)>>
+H3Targets == { << <<"", "c">>, <<"", "c">> >>, << <<"", "c", "", "cl">>, <<"", "c", "", "cl">> >>, << <<"", "p">>, <<"", "p">> >>,
+               << <<"", "l">>, <<"", "l">> >>, << <<"", "l", "", "k">>, <<"", "l", "", "k">> >>, << <<"", "l", "", "v">>, <<"", "l", "", "v">> >>,
+               << <<"", "ll">>, <<"", "ll">> >>, << <<"", "ch">>, <<"", "ch">> >>, << <<"", "ch", "", "ca", "", "q">>, <<"", "ch", "", "ca", "", "q">> >>,
+               << <<"", "ch", "", "sh">>, <<"", "ch", "", "sh", "", "sh">> >>, << <<"", "lf">>, <<"", "lf">> >> }
+AddAt(nodes, path, st) == LET ip == Locate(nodes, path, <<>>) IN SetAt(nodes, ip, <<[GetAt(nodes, ip) EXCEPT !.subs = @ \o <<st>>]>>)
+Abs(path, m) == [i \in 1..Len(path) |-> IF i % 2 = 1 THEN m ELSE path[i]]
+H3Sets(t, top) == {
+   << Module("a", <<>>, <<Cont("top", top \o AddAt(H3Kids, t[1], P("config", "false")))>>) >>,
+   << Module("a", <<>>, <<Grouping("g", H3Kids), Cont("top", top \o <<Uses("", "g", <<Refine(t[2], <<P("config", "false")>>)>>)>>)>>) >>,
+   << Module("a", <<>>, <<Cont("top", top \o H3Kids)>>),
+      Module("d", <<"a">>, <<Deviation(<<"a", "top">> \o Abs(t[2], "a"), <<Deviate("add", <<P("config", "false")>>)>>)>>) >> }
+H3(u_) == UNION { { [m |-> m, e |-> {}, alt |-> "none", fl |-> Filters(0)] : m \in H3Sets(t, <<>>) \cup H3Sets(t, <<P("config", "true")>>) } : t \in H3Targets }
+
 Family(name) == CASE name = "F1" -> F1(Bodies(0)) [] name = "F1q" -> F1(BodiesA(0)) [] name = "F2" -> F2(0) [] name = "F3" -> F3(0) [] name = "F4" -> F4(0) [] name = "F5" -> F5(0) [] name = "F6" -> F6(F6Extras(0)) [] name = "F6q" -> F6({<<>>, <<P("when", "1 = 1")>>}) [] name = "F7" -> F7(0) [] name = "F8" -> F8(0)
                   [] name = "G1c" -> G1K("container") [] name = "G1l" -> G1K("list") [] name = "G1h" -> G1K("choice")
                   [] name = "G2a" -> G2D(1) [] name = "G2b" -> G2D(2) [] name = "G2c" -> G2D(3) [] name = "G2d" -> G2D(4) [] name = "G2e" -> G2D(5)
                   [] name = "G2X" -> G2X(0) [] name = "G2S" -> G2S(0) [] name = "G3" -> G3(0) [] name = "G4" -> G4(0) [] name = "G4X" -> G4X(0)
-                  [] name = "H1q" -> H1(7) [] name = "H1" -> H1(11) [] name = "H2" -> H2(0)
+                  [] name = "H1q" -> H1(7) [] name = "H1" -> H1(11) [] name = "H2" -> H2(0) [] name = "H3" -> H3(0)
 =============================================================================
